@@ -4,7 +4,10 @@ C02 model (core Lean only): executable transliteration of
 * vm/eval.go   : the unwinding loop of `RunFrame`, `UnwindBlock`, `UnwindExceptHandler`,
                  `do_END_FINALLY`, `do_WITH_CLEANUP`, `do_SETUP_WITH`, `do_POP_EXCEPT`, `do_POP_BLOCK`,
                  `do_BREAK_LOOP`, `do_CONTINUE_LOOP`, `do_FOR_ITER`, `do_SETUP_*`, jumps,
-                 `do_COMPARE_OP(EXC_MATCH)`, `do_RAISE_VARARGS`, `do_RETURN_VALUE`, `SetException`/`AddTraceback`
+                 `do_COMPARE_OP(EXC_MATCH)`, `do_RAISE_VARARGS` (0: `Vm.raise` re-raising `vm.exc`; 1; 2: `from`),
+                 `do_RETURN_VALUE`, `SetException`/`AddTraceback`, the handled-exception state `vm.exc`
+                 (saved on handler entry, restored by POP_EXCEPT / UnwindExceptHandler / END_FINALLY(silenced)),
+                 the error path of a nested `RunFrame` (`vm.curexc = errExcInfo; AddTraceback`) for wrapper/module frames
 * py/frame.go  : `TryBlock`, `PushBlock`, `PopBlock`
 * py/exception.go / py/type.go : `ExceptionGivenMatches`, `IsSubtype` (walk of the MRO)
 * compile/instructions.go : `Lnotab()` ; py/code.go : `Addr2Line`
@@ -22,17 +25,20 @@ namespace GPy.C02
 inductive Cls
   | BaseException | Exception | LookupError | KeyError | IndexError
   | ArithmeticError | ZeroDivisionError | OverflowError | ValueError | KeyboardInterrupt
+  | RuntimeError | TypeError
 deriving DecidableEq, Repr, Inhabited
 
 def Cls.all : List Cls :=
   [.BaseException, .Exception, .LookupError, .KeyError, .IndexError,
-   .ArithmeticError, .ZeroDivisionError, .OverflowError, .ValueError, .KeyboardInterrupt]
+   .ArithmeticError, .ZeroDivisionError, .OverflowError, .ValueError, .KeyboardInterrupt,
+   .RuntimeError, .TypeError]
 
 def Cls.name : Cls → String
   | .BaseException => "BaseException" | .Exception => "Exception" | .LookupError => "LookupError"
   | .KeyError => "KeyError" | .IndexError => "IndexError" | .ArithmeticError => "ArithmeticError"
   | .ZeroDivisionError => "ZeroDivisionError" | .OverflowError => "OverflowError"
   | .ValueError => "ValueError" | .KeyboardInterrupt => "KeyboardInterrupt"
+  | .RuntimeError => "RuntimeError" | .TypeError => "TypeError"
 
 /-- `Type.Base` of the builtin exception types (py/exception.go `X.NewType(...)`);
 `BaseException`'s base is `object`, which is not an exception class: `none`. -/
@@ -43,6 +49,8 @@ def Cls.base : Cls → Option Cls
   | .LookupError => some .Exception
   | .ArithmeticError => some .Exception
   | .ValueError => some .Exception
+  | .RuntimeError => some .Exception
+  | .TypeError => some .Exception
   | .KeyError => some .LookupError
   | .IndexError => some .LookupError
   | .ZeroDivisionError => some .ArithmeticError
@@ -85,10 +93,23 @@ def givenMatches {α} [DecidableEq α] (H : Hier α) (err : α) : ExcSpec α →
   | .one c => isSubtype H err c
   | .tuple cs => givenMatchesL H err cs
 
+/-- The same two functions over ANY stored `Mro` (`mroOf a` = the tuple `a.Mro`, however it was
+computed - for classes with several bases it is the C3 linearisation, property C16):
+`IsSubtype` only walks that tuple. -/
+def isSubtypeM {α} [DecidableEq α] (mroOf : α → List α) (a b : α) : Bool := isSubtypeL (mroOf a) b
+
+def givenMatchesLM {α} [DecidableEq α] (mroOf : α → List α) (err : α) : List α → Bool
+  | [] => false
+  | c :: cs => if isSubtypeM mroOf err c then true else givenMatchesLM mroOf err cs
+
+def givenMatchesM {α} [DecidableEq α] (mroOf : α → List α) (err : α) : ExcSpec α → Bool
+  | .one c => isSubtypeM mroOf err c
+  | .tuple cs => givenMatchesLM mroOf err cs
+
 def Cls.rank : Cls → Nat
   | .BaseException => 0
   | .Exception | .KeyboardInterrupt => 1
-  | .LookupError | .ArithmeticError | .ValueError => 2
+  | .LookupError | .ArithmeticError | .ValueError | .RuntimeError | .TypeError => 2
   | .KeyError | .IndexError | .ZeroDivisionError | .OverflowError => 3
 
 def builtinHier : Hier Cls where
@@ -180,7 +201,7 @@ def Why.ofCode (n : Int) : Option Why :=
   else if n = 3 then some .brk else if n = 4 then some .cont else if n = 5 then some .yield
   else if n = 6 then some .silenced else none
 
-inductive Fn | ev | it | cm
+inductive Fn | ev | it | cm | user      -- `user`: a Python function of the program (the callee of a wrapper frame)
 deriving DecidableEq, Repr, Inhabited
 
 /-- the Python objects that can occur on the value stack of the fragment -/
@@ -233,6 +254,11 @@ def truthy : Val → Bool
 inductive EvRes | val (v : Int) | raise (c : Cls)
 deriving DecidableEq, Repr, Inhabited
 
+/-- how a call of a Python function (another `RunFrame`) ends for the calling frame:
+`(res, nil)` or `(nil, py.ExceptionInfo)` -/
+inductive CallRes | val (v : Val) | exc (e : ExcInfo)
+deriving DecidableEq, Repr, Inhabited
+
 /-- The primitives the fragment's programs can call.  `W` is the state of the outside world
 (path log, probe scripts); theorems quantify over every `Prims`. -/
 structure Prims (W : Type) where
@@ -241,6 +267,7 @@ structure Prims (W : Type) where
   itNext : W → Nat → W × Option Int         -- `__next__` of the iterator with that handle
   cmEnter : W → Nat → W                     -- `cm(i).__enter__()`
   cmExit : W → Nat → Option Cls → W × Val   -- `cm(i).__exit__(type|None, ..)`, its result
+  call : W → W × CallRes := fun w => (w, .val .none)   -- calling the program's function `Fn.user` (a nested `RunFrame`)
 
 structure VM (W : Type) where
   pc : Nat                 -- frame.Lasti as an instruction index
@@ -361,6 +388,12 @@ def allCls : List Val → Option (List Cls)
   | .cls c :: r => match allCls r with | some cs => some (c :: cs) | none => none
   | _ :: _ => none
 
+/-- an exception class or instance (what `raise` / `from` accept in the fragment): its class -/
+def raisable : Val → Option Cls
+  | .cls c => some c
+  | .excv c => some c
+  | _ => none
+
 /-- `jumpTable[opcode](&vm, arg)`; `vm.pc` has already been advanced; `ln` is the line of the instruction -/
 def exec {W} (P : Prims W) (i : Instr) (ln : Nat) (vm : VM W) : Res W :=
   match i with
@@ -379,6 +412,19 @@ def exec {W} (P : Prims W) (i : Instr) (ln : Nat) (vm : VM W) : Res W :=
         let r := P.itNew vm.world i.toNat
         .ok { vm with stack := .iter r.2 :: rest, world := r.1 }
       | .int i :: .fn .cm :: rest => .ok { vm with stack := .cm i.toNat :: rest }
+      | .int _ :: .cls c :: rest => .ok { vm with stack := .excv c :: rest }   -- `C(k)`: ExceptionNew
+      | _ => .unsupported "CALL_FUNCTION operands"
+    else if n = 0 then
+      -- a call of a Python function: a nested RunFrame.  When it returns a `py.ExceptionInfo`,
+      -- RunFrame does `vm.curexc = errExcInfo; vm.AddTraceback(&vm.curexc)`: the callee's traceback
+      -- is kept and an entry for THIS frame (line of the call) is put in front of it
+      match vm.stack with
+      | .fn .user :: rest =>
+        (match P.call vm.world with
+         | (w, .val v) => .ok { vm with stack := v :: rest, world := w }
+         | (w, .exc e) =>
+           .ok { vm with stack := rest, world := w, why := .exception,
+                         curexc := { e with tb := some (ln :: e.tb.getD []) } })
       | _ => .unsupported "CALL_FUNCTION operands"
     else .unsupported "CALL_FUNCTION argc"
   | .popTop =>
@@ -513,13 +559,26 @@ def exec {W} (P : Prims W) (i : Instr) (ln : Nat) (vm : VM W) : Res W :=
        | none => .unsupported "BUILD_TUPLE of non-classes")
     | none => .panic "stack underflow"
   | .raiseVarargs n =>
-    if n = 1 then
+    if n = 0 then
+      -- `vm.raise(nil, nil)`: re-raise the exception being handled; no traceback entry is added
+      if vm.exc.isSet then .ok { vm with curexc := vm.exc, why := .exception }
+      else .ok (raiseAt vm .RuntimeError ln)
+    else if n = 1 then
       match vm.stack with
       | .cls c :: rest => .ok (raiseAt { vm with stack := rest } c ln)
       | .excv c :: rest => .ok (raiseAt { vm with stack := rest } c ln)
+      | .int _ :: rest => .ok (raiseAt { vm with stack := rest } .TypeError ln)   -- after the repair of `raise 5`
       | _ :: _ => .unsupported "RAISE_VARARGS operand"
       | [] => .panic "stack underflow"
-    else .unsupported "RAISE_VARARGS argc"
+    else if n = 2 then
+      -- `raise E from C`: the cause only lands in `Exception.Cause`
+      match vm.stack with
+      | cause :: e :: rest =>
+        (match raisable cause, raisable e with
+         | some _, some c => .ok (raiseAt { vm with stack := rest } c ln)
+         | _, _ => .unsupported "RAISE_VARARGS operands")
+      | _ => .panic "stack underflow"
+    else .panic "vm: Bad RAISE_VARARGS argc"
   | .returnValue =>
     match vm.stack with
     | v :: rest => .ok { vm with stack := rest, retval := v, why := .ret }
@@ -576,6 +635,28 @@ def run {W} (P : Prims W) (code : Code) : Nat → VM W → Option (Exit W)
     | .next vm' => run P code f vm'
     | .done e => some e
 
+/-! ## calling frames: `def g(): return f()` and the module-level `r = f()` -/
+
+/-- code of a wrapper function `def g(): return f()` whose `return` is on line `ln` -/
+def wrapperCode (ln : Nat) : Code :=
+  [(.loadGlobal (.fn .user), ln), (.callFunction 0, ln), (.returnValue, ln)]
+
+/-- code of the module-level statement `r = f()` on line `ln` followed by the module's
+`LOAD_CONST None; RETURN_VALUE` (LOAD_NAME / STORE_NAME have the stack effect of LOAD_GLOBAL / STORE_FAST) -/
+def moduleCode (ln : Nat) : Code :=
+  [(.loadGlobal (.fn .user), ln), (.callFunction 0, ln), (.storeFast "r", ln), (.loadConst .none, ln), (.returnValue, ln)]
+
+/-- what the caller of `RunFrame` gets -/
+def Exit.toCall {W} (w0 : W) : Option (Exit W) → W × CallRes
+  | some (.ret v w) => (w, .val v)
+  | some (.exc e w) => (w, .exc e)
+  | _ => (w0, .val .nil)          -- panic / unsupported / out of fuel: not a result (never produced by the theorems' hypotheses)
+
+/-- a chain of wrapper frames around an innermost call `inner`; `lns` = the lines of the calls, outermost first -/
+def runChain {W} (P : Prims W) (inner : W → W × CallRes) : List Nat → W → W × CallRes
+  | [], w => inner w
+  | ln :: rest, w => Exit.toCall w (run { P with call := runChain P inner rest } (wrapperCode ln) 4 (initVM w))
+
 /-! ## compiler: compile/compile.go for the statement fragment -/
 
 /-- one `except` clause head: `except C:` / `except (C1, C2):` with or without `as e`; `ln` = its line -/
@@ -585,12 +666,24 @@ structure Matcher where
   named : Bool
 deriving Repr, DecidableEq, Inhabited
 
+/-- the other forms of `raise` -/
+inductive RaiseForm
+  | inst (c : Cls) (k : Nat)      -- `raise C(k)`
+  | from (c d : Cls)              -- `raise C from D`
+  | nonExc (k : Nat)              -- `raise k` with an int: TypeError
+deriving Repr, DecidableEq, Inhabited
+
+def RaiseForm.len : RaiseForm → Nat
+  | .inst _ _ => 4 | .from _ _ => 3 | .nonExc _ => 2
+
 inductive Stmt
   | skip                                            -- empty statement list (absent else / no text)
   | pass (ln : Nat)
   | ev (ln i : Nat)                                 -- `ev(i)`
   | ret (ln i : Nat)                                -- `return ev(i)`
   | raise (ln : Nat) (c : Cls)                      -- `raise C`
+  | reraise (ln : Nat)                              -- bare `raise`: re-raise the exception being handled
+  | raiseX (ln : Nat) (f : RaiseForm)               -- `raise C(k)` / `raise C from D` / `raise k`
   | brk (ln : Nat)
   | cont (ln : Nat)
   | seq (a b : Stmt)
@@ -630,6 +723,7 @@ def handlerLen (m : Matcher) (hlen : Nat) : Nat :=
 def len : Stmt → Nat
   | .skip => 0 | .pass _ => 0
   | .ev _ _ => 4 | .ret _ _ => 4 | .raise _ _ => 2 | .brk _ => 1 | .cont _ => 1
+  | .reraise _ => 1 | .raiseX _ f => f.len
   | .seq a b => len a + len b
   | .ifS _ _ b o => 5 + len b + len o
   | .whileS _ _ b o => 7 + len b + len o
@@ -643,7 +737,7 @@ def len : Stmt → Nat
 def endLine : Nat → Stmt → Nat
   | cur, .skip => cur
   | _, .pass ln => ln | _, .ev ln _ => ln | _, .ret ln _ => ln | _, .raise ln _ => ln
-  | _, .brk ln => ln | _, .cont ln => ln
+  | _, .brk ln => ln | _, .cont ln => ln | _, .reraise ln => ln | _, .raiseX ln _ => ln
   | cur, .seq a b => endLine (endLine cur a) b
   | _, .ifS ln _ b o => endLine (endLine ln b) o
   | _, .whileS ln _ b o => endLine (endLine ln b) o
@@ -693,6 +787,11 @@ def compS : Ctx → Nat → Nat → Stmt → Code
   | _, _, _, .ev ln i => callProbe .ev i ln ++ [(.popTop, ln)]
   | _, _, _, .ret ln i => callProbe .ev i ln ++ [(.returnValue, ln)]
   | _, _, _, .raise ln c => [(.loadGlobal (.cls c), ln), (.raiseVarargs 1, ln)]
+  | _, _, _, .reraise ln => [(.raiseVarargs 0, ln)]
+  | _, _, _, .raiseX ln (.inst c k) =>
+    [(.loadGlobal (.cls c), ln), (.loadConst (.int k), ln), (.callFunction 1, ln), (.raiseVarargs 1, ln)]
+  | _, _, _, .raiseX ln (.from c d) => [(.loadGlobal (.cls c), ln), (.loadGlobal (.cls d), ln), (.raiseVarargs 2, ln)]
+  | _, _, _, .raiseX ln (.nonExc k) => [(.loadConst (.int k), ln), (.raiseVarargs 1, ln)]
   | _, _, _, .brk ln => [(.breakLoop, ln)]
   | ctx, _, _, .cont ln => match contInstr ctx with
     | some i => [(i, ln)]
@@ -757,6 +856,7 @@ def hasLoop : Ctx → Bool
 stack, positions) as `compS` -/
 def compErr : Ctx → Nat → Stmt → Option String
   | _, _, .skip | _, _, .pass _ | _, _, .ev _ _ | _, _, .ret _ _ | _, _, .raise _ _ => none
+  | _, _, .reraise _ | _, _, .raiseX _ _ => none
   | ctx, _, .brk _ => if hasLoop ctx then none else some "'break' outside loop"
   | ctx, _, .cont _ => match contInstr ctx with
     | some _ => none
